@@ -13,6 +13,7 @@ import numpy as np
 
 from ..core import import_library
 from ..gen import engines as E
+from ..env import ENVIRONMENTS, excusable, hostile
 from ..probe import Probe, Reach
 from ..ref import structure as S
 from ..ref import wiring as W
@@ -26,6 +27,7 @@ class PythonMonitor:
     def __init__(self, ctx, fl):
         self.ctx, self.fl = ctx, fl
         self.last = None
+        self.names = {}  # names the workload's own classes are known by (what a user's module would hold), for executing the code
 
     DEDICATED = ("engine", "input_variable", "output_variable", "rule_block", "term", "norm", "activation", "defuzzifier", "rule")
 
@@ -55,7 +57,7 @@ class PythonMonitor:
 
     def rebuild(self, exporter, instance, code):
         fl = self.fl
-        ns = {}
+        ns = dict(self.names)
         exec(fl.representation.import_statement(), ns)
         if exporter.encapsulated:
             exec(code, ns)
@@ -96,6 +98,14 @@ class PythonMonitor:
         if repr(back) != repr(instance):
             ctx.violation(f"the reconstructed {kind}'s Python representation differs from the original's", case, repr(instance)[:1500], repr(back)[:1500])
             return
+        if isinstance(instance, (fl.Norm, fl.Activation, fl.Defuzzifier, fl.Hedge)) or (isinstance(instance, fl.Term) and type(instance).__module__ != fl.Term.__module__):
+            # a component that is nothing but its settings: the reconstructed one holds the same settings (what its text shows
+            # and what it does not)
+            ctx.hit("compare:settings of a reconstructed component")
+            va, vb = {k: v for k, v in vars(instance).items() if not k.startswith("_")}, {k: v for k, v in vars(back).items() if not k.startswith("_")}
+            if va.keys() != vb.keys() or any(not same_setting(va[k], vb[k]) for k in va):
+                ctx.violation(f"the reconstructed {kind} does not hold the settings of the original", case, {k: repr(v)[:80] for k, v in va.items()}, {k: repr(v)[:80] for k, v in vb.items()})
+                return
         if isinstance(instance, (fl.Engine, fl.Variable, fl.Term, fl.RuleBlock, fl.Rule, fl.Norm, fl.Activation, fl.Defuzzifier)):
             a, b = fl.Op.to_fll(instance), fl.Op.to_fll(back)
             if a != b:
@@ -114,6 +124,24 @@ class PythonMonitor:
                     ctx.violation(f"the reconstructed engine differs structurally from the original ({kindp})", dict(case, path=path), x, y)
             if not diffs:
                 ctx.nontrivial(result)
+
+
+def same_setting(a, b):
+    if isinstance(a, float) and isinstance(b, float):
+        return a == b or (a != a and b != b)
+    if isinstance(a, np.ndarray) or isinstance(b, np.ndarray):
+        return bool(np.array_equal(np.asarray(a), np.asarray(b), equal_nan=True))
+    if type(a) is not type(b):
+        return False
+    if isinstance(a, (int, str, bool, type(None), enum_type())):
+        return a == b
+    return repr(a) == repr(b)
+
+
+def enum_type():
+    import enum
+
+    return enum.Enum
 
 
 def arbitrary(rnd, spec):
@@ -290,14 +318,134 @@ def run(ctx):
                     fl.PythonExporter(formatted=False, encapsulated=bool(i % 2)).to_string(term)  # judged by the monitor
                 except Exception:
                     pass
+        # components of a user's own classes: subclasses with constructor arguments of their own (defaulted), and distinct classes
+        # that carry one and the same name (a class made by a function, a class defined again) with different constructors
+        import sys as _sys
+
+        TrimmedCentroid, ScaledAverage, make_slope = user_classes(fl)
+        for i, rnd in ctx.cases("user classes", ctx.scale(30, 600)):
+            alias = ALIASES[i % len(ALIASES)]
+            slopes = [make_slope(bool((i + k) % 2)) for k in range(2)]
+            mon.names = {"vf": _sys.modules["vf"], "TrimmedCentroid": TrimmedCentroid, "ScaledAverage": ScaledAverage}
+            with fl.settings.context(alias=alias, decimals=3):
+                cut, gain = rnd.choice([0.0, 0.4, 0.25]), rnd.choice([1.0, 2.0, 0.5])
+                comps = [TrimmedCentroid(rnd.choice([None, 100, 50]), cut), TrimmedCentroid(cut=cut), ScaledAverage(gain=gain), ScaledAverage("TakagiSugeno", gain)]
+                for c in comps:
+                    for enc in (False, True):
+                        try:
+                            fl.PythonExporter(formatted=False, encapsulated=enc).to_string(c)  # judged by the monitor
+                        except Exception:
+                            pass
+                if alias == "*":
+                    # (classes made by a function carry no importable path: only the bare names can be executed)
+                    for k, cls in enumerate(slopes):
+                        mon.names["Slope"] = cls
+                        term = cls("s", 0.0, 1.0, 0.25) if k == (i + 1) % 2 or not hasattr(cls, "HAS_FLOOR") else cls("s", 0.0, 1.0)
+                        term = cls("s", 0.0, 1.0, floor=0.25) if cls.HAS_FLOOR else cls("s", 0.0, 1.0)
+                        try:
+                            fl.PythonExporter(formatted=False).to_string(term)  # judged by the monitor
+                        except Exception:
+                            pass
+                    ctx.hit("workload:two classes of one name with different constructors")
+                for mamdani in (True, False):
+                    dz = TrimmedCentroid(100, cut) if mamdani else ScaledAverage(gain=gain)
+                    engine = fl.Engine(
+                        "user",
+                        input_variables=[fl.InputVariable("a", minimum=0.0, maximum=1.0, terms=[fl.Triangle("low", 0.0, 0.25, 0.5), fl.Ramp("high", 0.25, 1.0)])],
+                        output_variables=[fl.OutputVariable("o", minimum=0.0, maximum=2.0, aggregation=fl.Maximum(), defuzzifier=dz, terms=[fl.Triangle("x", 0.0, 1.0, 2.0), fl.Triangle("y", 0.5, 1.5, 2.0)] if mamdani else [fl.Constant("x", 0.5), fl.Constant("y", 1.5)])],
+                        rule_blocks=[fl.RuleBlock("rb", conjunction=fl.Minimum(), disjunction=fl.Maximum(), implication=fl.Minimum(), activation=fl.General(), rules=[fl.Rule.create("if a is low then o is x"), fl.Rule.create("if a is high then o is y")])],
+                    )
+                    for enc in (False, True):
+                        try:
+                            fl.PythonExporter(formatted=False, encapsulated=enc).to_string(engine)  # judged by the monitor
+                        except Exception:
+                            continue
+                        back = mon.last
+                        if back is None:
+                            continue
+                        for x in (0.1, 0.3, 0.45, 0.8):
+                            engine.input_variables[0].value = x
+                            back.input_variables[0].value = x
+                            engine.process()
+                            back.process()
+                            ctx.evaluated()
+                            if not W.same(engine.output_variables[0].value, back.output_variables[0].value):
+                                ctx.violation("the reconstructed engine computes different outputs", {"repr": repr(engine)[:2500], "rows": [x], "user_classes": True}, engine.output_variables[0].value, back.output_variables[0].value)
+                                break
+            mon.names = {}
+            ctx.hit("workload:components of a user's own classes")
         probe.report(ctx)
         reach.report(ctx)
+    ctx.require("workload:components of a user's own classes", "workload:two classes of one name with different constructors", "compare:settings of a reconstructed component")
     ctx.require("workload:a rule was given a text that the parser rejected", "workload:rule weights assigned after the engine was written out", "workload:Discrete term with more than 500 pairs", "component:term built by factory and configure", "compare:dedicated method input_variable", "compare:dedicated method rule_block", "compare:dedicated method term", "compare:dedicated method norm")
     ctx.require("hook:PythonExporter.to_string", "compare:identical outputs", "kind:Engine", "kind:Term", "kind:InputVariable", "kind:OutputVariable", "kind:RuleBlock", "kind:Rule", "kind:Norm", "kind:Defuzzifier", "kind:Activation")
     for alias in ALIASES:
         for enc in ("plain", "encapsulated"):
             ctx.require(f"compare:{enc}:unformatted:alias={alias!r}")
     ctx.require("compare:plain:formatted:alias='fl'") if ctx.nshards == 1 else None
+
+
+_USER = {}
+
+
+def user_classes(fl):
+    """module-level classes (importable as vf.props.c15.<name>) and a function that makes classes of one name"""
+    if "classes" not in _USER:
+
+        class TrimmedCentroid(fl.Centroid):
+            def __init__(self, resolution=None, cut=0.0):
+                super().__init__(resolution)
+                self.cut = cut
+
+            def defuzzify(self, term, minimum, maximum):
+                x = fl.Op.midpoints(minimum, maximum, self.resolution)
+                y = np.atleast_2d(term.membership(np.atleast_2d(x).T)).reshape(len(x), -1)
+                y = np.where(y >= self.cut, y, 0.0)
+                with np.errstate(invalid="ignore", divide="ignore"):
+                    return ((x[:, None] * y).sum(axis=0) / y.sum(axis=0)).squeeze()
+
+        class ScaledAverage(fl.WeightedAverage):
+            def __init__(self, type=fl.WeightedDefuzzifier.Type.Automatic, gain=1.0):
+                super().__init__(type)
+                self.gain = gain
+
+            def defuzzify(self, term, minimum=float("nan"), maximum=float("nan")):
+                return self.gain * super().defuzzify(term, minimum, maximum)
+
+        for cls in (TrimmedCentroid, ScaledAverage):
+            cls.__module__, cls.__qualname__ = __name__, cls.__name__
+            globals()[cls.__name__] = cls
+
+        def make_slope(with_floor):
+            if with_floor:
+
+                class Slope(fl.Term):
+                    HAS_FLOOR = True
+
+                    def __init__(self, name="", start=0.0, end=1.0, floor=0.0, height=1.0):
+                        super().__init__(name, height)
+                        self.start, self.end, self.floor = start, end, floor
+
+                    def membership(self, x):
+                        return self.height * np.maximum(self.floor, np.clip((fl.scalar(x) - self.start) / (self.end - self.start), 0.0, 1.0))
+
+            else:
+
+                class Slope(fl.Term):
+                    HAS_FLOOR = False
+
+                    def __init__(self, name="", start=0.0, end=1.0, height=1.0):
+                        super().__init__(name, height)
+                        self.start, self.end = start, end
+
+                    def membership(self, x):
+                        return self.height * np.clip((fl.scalar(x) - self.start) / (self.end - self.start), 0.0, 1.0)
+
+            Slope.__module__, Slope.__qualname__ = __name__, "Slope"
+            return Slope
+
+        _USER["classes"] = (TrimmedCentroid, ScaledAverage, make_slope)
+    return _USER["classes"]
 
 
 def same_outputs(ctx, fl, rnd, spec, engine, back):
